@@ -145,9 +145,9 @@ type nnsOp struct {
 	ID      int64  `json:"id,omitempty"`
 	Data    string `json:"data,omitempty"`
 	Price   int64  `json:"price,omitempty"`
-	Signers []int  `json:"signers"` // principals that sign besides the payer
+	Signers []int  `json:"signers"`       // principals that sign besides the payer
 	Via     int    `json:"via,omitempty"` // 0 = direct, pC / pR = through that contract
-	T       uint64 `json:"t"`       // block timestamp (ms)
+	T       uint64 `json:"t"`             // block timestamp (ms)
 }
 
 func (o nnsOp) String() string {
@@ -719,8 +719,6 @@ type nnsGen struct {
 	now  uint64
 }
 
-
-
 func (g *nnsGen) pick(ws ...int) int {
 	s := 0
 	for _, w := range ws {
@@ -1213,7 +1211,7 @@ func nnsCorpus(prop string) [][]nnsOp {
 		add(nnsOp{Kind: "transfer", Name: "a.com", Owner: pU2}, pU1)
 		add(nnsOp{Kind: "transfer", Name: "a.com", Owner: pU2}, pU2) // to self
 		add(nnsOp{Kind: "transfer", Name: "a.com", Owner: pC}, pU2)
-		add(nnsOp{Kind: "transfer", Name: "a.com", Owner: pR}, pC)  // receiver faults
+		add(nnsOp{Kind: "transfer", Name: "a.com", Owner: pR}, pC)   // receiver faults
 		add(nnsOp{Kind: "transfer", Name: "a.com", Owner: pU0}, pU1) // not the owner: false
 		add(nnsOp{Kind: "transfer", Name: "a.com", Owner: pU0}, pC)
 		add(nnsOp{Kind: "renew", Name: "a.com", Years: 1}, pU0)
@@ -1295,7 +1293,7 @@ func nnsCorpus(prop string) [][]nnsOp {
 		start()
 		reg("a.com", pU0, 3, pU0) // exp 3003
 		add(nnsOp{Kind: "setAdmin", Name: "a.com", Owner: pU1}, pU0, pU1)
-		reg("x.a.com", pC, 3600, pC, pU1) // admin of the parent registers for the contract
+		reg("x.a.com", pC, 3600, pC, pU1)               // admin of the parent registers for the contract
 		rec("addRecord", "x.a.com", tTXT, 0, "t1", pU0) // parent owner cannot touch a registered sub-name
 		rec("addRecord", "x.a.com", tTXT, 0, "t1", pC)
 		rec("addRecord", "y.a.com", tTXT, 0, "t1", pU1) // unregistered sub-name: the parent's admin
@@ -1494,7 +1492,9 @@ func has(xs []int, p int) bool {
 
 func typByte(t int64) int64 { return ((t % 256) + 256) % 256 }
 
-func rkeyOf(tok, name string, typ int64) string { return fmt.Sprintf("%s|%s|%d", tok, name, typByte(typ)) }
+func rkeyOf(tok, name string, typ int64) string {
+	return fmt.Sprintf("%s|%s|%d", tok, name, typByte(typ))
+}
 
 func isMutating(k string) bool {
 	switch k {
